@@ -9,11 +9,16 @@ is its length).  Modelled code = `/repo` + the proposed fixes `C08-store-key-ext
 * `c08_declared_visible`, `c08_declared_fields`        — ANY sub-store model.
 * `c08_no_reevaluation*`                                 — ANY sub-store model, EVERY history (induction over the history).
 * `c08_first_read*`, `c08_remove_resets`, `c08_failure*` — the `MemoryStore` model `memOps` (C07 ties it to the store
-  specification); the `FileStore` model differs in one respect, shown on a concrete run at the end: a failed recipe leaves
-  no data *file*, so `substore.contains` stays false and every later read evaluates it again.
+  specification).
+* `c08_first_read*_file`, `c08_remove_resets_file`, `c08_failure*_file` — the same over the `FileStore` model
+  `fileOps root`, for every sub-store state in which the key can be written (`fileWritable`, decidable, re-established by
+  every one of these operations) and is not a directory.  The `FileStore` differs in one respect, proved in
+  `c08_failure_file`: a failed recipe leaves no data *file*, so `substore.contains` stays false and the next read
+  evaluates it again.
 * `c08_relative*`                                        — resolution is C19's `toAbs` against the recipe's directory.
 -/
 import LiquerProofs.Lemmas.RecipesMem
+import LiquerProofs.Lemmas.RecipesFile
 import LiquerProofs.Props.C19
 import LiquerModel.StoreFile
 
@@ -404,6 +409,221 @@ theorem c08_relative_posix (dir : Key) (hd : plainPath dir = true) (h : Option H
   simp only [Query.toAbsolute, mapOpt, Seg.toAbsolute, hsel, hne, Bool.and_self, ↓reduceIte]
   cases toAbs dir p <;> rfl
 
+/-! ### (7) the same over the `FileStore` model
+
+`fileOps root` over the POSIX tree `PFS`.  What the file model needs of the sub-store state, for the one key `k`:
+`PlainKey k` (no empty / `.` / `..` / `__metadata__` component), `fileWritable root s k` (no regular file on the way to
+`<dir>/__metadata__/<name>.json`, which is not a directory itself) and that `k` is not a directory.  All are decidable, are
+kept by every operation of the theorems below (each of which restates `fileWritable` for the state it leaves), and hold
+in the state a fresh recipe store leaves (`Ex.f0`).  The one behavioural difference: a failed recipe leaves a metadata
+file and NO data file, so `substore.contains` stays false and the next read evaluates the recipe again; and, because
+`create_status` of a key that is a directory of recipes would create that directory, the failure and remove theorems
+need `recipeDir cfg.recipes k = false` (the `MemoryStore` theorems need it for `remove` only). -/
+
+section file
+variable (root : Path)
+
+/-- the first read over a `FileStore`, in terms of how the evaluation phase ended (hypotheses on the state the
+evaluation phase left: the key can be written and is not a directory) -/
+theorem first_read_core_file (cfg : Cfg) (E : Env) (n : Nat) (st : RState PFS) (k : Key) (r : Recipe) (d : Data)
+    (hl : cfg.lookup k = some r) (hpk : PlainKey k) (hsf : keyName k ≠ statusFile)
+    (habs : File.contains root st.sub k = .ok false)
+    (hout : (evalPhase (fileOps root) cfg E (getBytesF (fileOps root) cfg E n) st r k).2 = .ok d)
+    (hw : fileWritable root (evalPhase (fileOps root) cfg E (getBytesF (fileOps root) cfg E n) st r k).1.sub k = true)
+    (hnd : File.isDir root (evalPhase (fileOps root) cfg E (getBytesF (fileOps root) cfg E n) st r k).1.sub k = .ok false) :
+    (getBytesF (fileOps root) cfg E (n + 1) st k).2 = .ok d ∧
+    (getBytesF (fileOps root) cfg E (n + 1) st k).1.log =
+      (evalPhase (fileOps root) cfg E (getBytesF (fileOps root) cfg E n) st r k).1.log ∧
+    (∃ o, getMeta (fileOps root) cfg (getBytesF (fileOps root) cfg E (n + 1) st k).1 k = .ok o ∧ o.rm = readyMeta r) ∧
+    File.getBytes root (getBytesF (fileOps root) cfg E (n + 1) st k).1.sub k = .ok d ∧
+    fileWritable root (getBytesF (fileOps root) cfg E (n + 1) st k).1.sub k = true ∧
+    (∀ m, getBytesF (fileOps root) cfg E (m + 1) (getBytesF (fileOps root) cfg E (n + 1) st k).1 k =
+      ((getBytesF (fileOps root) cfg E (n + 1) st k).1, .ok d)) := by
+  obtain ⟨hk0, _⟩ := File.absent_of_contains hpk habs
+  rw [getBytesF_absent (fileOps root) cfg E n st k r hl habs, hout]
+  generalize (evalPhase (fileOps root) cfg E (getBytesF (fileOps root) cfg E n) st r k).1 = p1 at hw hnd
+  have hp : p1.sub.get (root ++ k) ≠ some .dir := by
+    rw [File.isDir_plain _ hpk hk0] at hnd
+    injection hnd with h
+    simpa [PFS.isDirB] using h
+  obtain ⟨f1, f2⟩ := finish_ok_file (root := root) cfg p1 hpk hk0 hsf r d hw hp
+  have hlog := finish_log (fileOps root) cfg p1 k r (.ok d)
+  generalize finish (fileOps root) cfg p1 k r (.ok d) = fin at f1 f2 hlog
+  obtain ⟨s', e⟩ := fin
+  simp only at f1 f2 hlog
+  subst f1
+  simp only [afterMake]
+  have hb : File.getBytes root s'.sub k = .ok d := File.getBytes_dfile _ hpk f2.1
+  exact ⟨hb, hlog, ⟨_, getMeta_file_entry cfg s' hpk hk0 (by simp) f2, by simp [decRM_encRM]⟩, hb, f2.writable,
+    fun m => getBytesF_file_data cfg E m s' hpk hk0 d f2.1⟩
+
+/-- **First read over a `FileStore`**, query without a resource reference: as `c08_first_read`; in addition the
+sub-store's own `get_bytes` returns the result (the data file holds it). -/
+theorem c08_first_read_file (cfg : Cfg) (E : Env) (st : RState PFS) (k : Key) (r : Recipe) (q : Query) (d : Data)
+    (hl : cfg.lookup k = some r) (hpk : PlainKey k) (hsf : keyName k ≠ statusFile)
+    (habs : File.contains root st.sub k = .ok false) (hw : fileWritable root st.sub k = true)
+    (hp : E.prs r.query = some q) (hq : ∀ h names rest, q.segments ≠ .resource h names :: rest)
+    (hev : E.evalQ r.query (storeExt k q) = some d) :
+    (getBytes (fileOps root) cfg E st k).2 = .ok d ∧
+    (getBytes (fileOps root) cfg E st k).1.log = k :: st.log ∧
+    (∃ o, getMeta (fileOps root) cfg (getBytes (fileOps root) cfg E st k).1 k = .ok o ∧ o.rm.status = .ready ∧
+      o.rm.hasRecipe = true ∧ o.rm.depName = some r.name ∧ o.rm.depVersion = some r.version ∧
+      o.rm.title = r.title.or (some []) ∧ o.rm.descr = r.descr.or (some [])) ∧
+    File.getBytes root (getBytes (fileOps root) cfg E st k).1.sub k = .ok d ∧
+    fileWritable root (getBytes (fileOps root) cfg E st k).1.sub k = true ∧
+    getBytes (fileOps root) cfg E (getBytes (fileOps root) cfg E st k).1 k = ((getBytes (fileOps root) cfg E st k).1, .ok d) := by
+  obtain ⟨hk0, hnone⟩ := File.absent_of_contains hpk habs
+  unfold getBytes fuelOf
+  have he := evalPhase_plain (fileOps root) cfg E (getBytesF (fileOps root) cfg E (cfg.recipes.length + 1)) st r k q hp hq
+  obtain ⟨a, b, ⟨o, c1, c2⟩, g, w, e⟩ := first_read_core_file root cfg E (cfg.recipes.length + 1) st k r d hl hpk hsf habs
+    (by rw [he, hev]; rfl) (by rw [he]; exact hw)
+    (by rw [he, File.isDir_plain _ hpk hk0]; simp [PFS.isDirB, hnone])
+  refine ⟨a, by rw [b, he], ⟨o, c1, ?_⟩, g, w, e _⟩
+  rw [c2]
+  simp [readyMeta]
+
+/-- **First read over a `FileStore`**, query that transforms another key: as `c08_first_read_dep`.  Reading the referenced
+key may materialise other recipes, so the two conditions on the sub-store are about the state that read leaves. -/
+theorem c08_first_read_dep_file (cfg : Cfg) (E : Env) (st : RState PFS) (k : Key) (r : Recipe) (q : Query) (d : Data)
+    (h : Option Header) (names : List Str) (t : Seg) (rest : List Seg)
+    (hl : cfg.lookup k = some r) (hpk : PlainKey k) (hsf : keyName k ≠ statusFile)
+    (habs : File.contains root st.sub k = .ok false)
+    (hp : E.prs r.query = some q) (hq : q.segments = .resource h names :: t :: rest)
+    (o : RObs) (hm : metaRoot (fileOps root) cfg st names = .ok o)
+    (hw : fileWritable root (bytesRoot cfg (getBytesF (fileOps root) cfg E (cfg.recipes.length + 1)) st names).1.sub k = true)
+    (hnd : File.isDir root (bytesRoot cfg (getBytesF (fileOps root) cfg E (cfg.recipes.length + 1)) st names).1.sub k = .ok false)
+    (hev : E.evalQ r.query (storeExt k q) = some d) :
+    (getBytes (fileOps root) cfg E st k).2 = .ok d ∧
+    (getBytes (fileOps root) cfg E st k).1.log =
+      k :: (bytesRoot cfg (getBytesF (fileOps root) cfg E (cfg.recipes.length + 1)) st names).1.log ∧
+    (∃ o, getMeta (fileOps root) cfg (getBytes (fileOps root) cfg E st k).1 k = .ok o ∧ o.rm = readyMeta r) ∧
+    File.getBytes root (getBytes (fileOps root) cfg E st k).1.sub k = .ok d ∧
+    fileWritable root (getBytes (fileOps root) cfg E st k).1.sub k = true ∧
+    getBytes (fileOps root) cfg E (getBytes (fileOps root) cfg E st k).1 k = ((getBytes (fileOps root) cfg E st k).1, .ok d) := by
+  unfold getBytes fuelOf
+  have he := evalPhase_dep (fileOps root) cfg E (getBytesF (fileOps root) cfg E (cfg.recipes.length + 1)) st r k q h names t rest hp hq o hm
+  obtain ⟨a, b, c, g, w, e⟩ := first_read_core_file root cfg E (cfg.recipes.length + 1) st k r d hl hpk hsf habs
+    (by rw [he, hev]; rfl) (by rw [he]; exact hw) (by rw [he]; exact hnd)
+  exact ⟨a, by rw [b, he], c, g, w, e _⟩
+
+/-- **Remove resets, over a `FileStore`**: as `c08_remove_resets` (data file and metadata file are unlinked, whichever
+exist), for a key that can be written and is not a directory; the key can still be written afterwards. -/
+theorem c08_remove_resets_file (cfg : Cfg) (st : RState PFS) (k : Key) (r : Recipe)
+    (hl : cfg.lookup k = some r) (hpk : PlainKey k) (hk : k ≠ []) (hsf : keyName k ≠ statusFile)
+    (hnd : recipeDir cfg.recipes k = false)
+    (hw : fileWritable root st.sub k = true) (hdir : File.isDir root st.sub k = .ok false) :
+    ∃ st', remove (fileOps root) cfg st k = .ok st' ∧ st'.log = st.log ∧
+      File.contains root st'.sub k = .ok false ∧ contains (fileOps root) cfg st' k = .ok true ∧
+      getMeta (fileOps root) cfg st' k = .ok { isDir := false, rm := { status := .recipe, title := r.title, descr := r.descr, hasRecipe := true } } ∧
+      triggers (fileOps root) cfg st' (.getBytes k) = true ∧ fileWritable root st'.sub k = true := by
+  have hp : st.sub.get (root ++ k) ≠ some .dir := by
+    rw [File.isDir_plain _ hpk hk] at hdir
+    injection hdir with h
+    simpa [PFS.isDirB] using h
+  obtain ⟨st', h1, h2, h3, h4, h5⟩ := remove_file (root := root) cfg st hpk hk hsf hnd hw hp
+  have hc : (fileOps root).contains st'.sub k = .ok false := by
+    show File.contains root st'.sub k = _
+    rw [File.contains_plain _ hpk hk, h3]; rfl
+  have hd : (fileOps root).isDir st'.sub k = .ok false := by
+    show File.isDir root st'.sub k = _
+    rw [File.isDir_plain _ hpk hk]
+    simp [PFS.isDirB, h3]
+  have hm : (fileOps root).getMeta st'.sub k = .error .keyNotFound := File.getMeta_absent _ hpk hk h3 h4
+  obtain ⟨v1, _, v3, _, _⟩ := c08_declared_visible (fileOps root) cfg st' k r hl hnd hc hd hm
+  exact ⟨st', h1, h2, hc, v1, v3, by simp [triggers, hc, hl], h5⟩
+
+/-- how a failed evaluation phase ends over a `FileStore`, provided the evaluation phase left no data file under the key
+and the key can be written: error metadata, no data file, and the sub-store still does not contain the key -/
+theorem failure_core_file (cfg : Cfg) (E : Env) (n : Nat) (st : RState PFS) (k : Key) (r : Recipe) (bare : Bool)
+    (hl : cfg.lookup k = some r) (hpk : PlainKey k) (hsf : keyName k ≠ statusFile) (hrd : recipeDir cfg.recipes k = false)
+    (habs : File.contains root st.sub k = .ok false)
+    (hout : (evalPhase (fileOps root) cfg E (getBytesF (fileOps root) cfg E n) st r k).2 = .failed bare)
+    (hnone : File.contains root (evalPhase (fileOps root) cfg E (getBytesF (fileOps root) cfg E n) st r k).1.sub k = .ok false)
+    (hw : fileWritable root (evalPhase (fileOps root) cfg E (getBytesF (fileOps root) cfg E n) st r k).1.sub k = true) :
+    (getBytesF (fileOps root) cfg E (n + 1) st k).2 = .error .keyNotFound ∧
+    (getBytesF (fileOps root) cfg E (n + 1) st k).1.log =
+      (evalPhase (fileOps root) cfg E (getBytesF (fileOps root) cfg E n) st r k).1.log ∧
+    File.contains root (getBytesF (fileOps root) cfg E (n + 1) st k).1.sub k = .ok false ∧
+    File.getBytes root (getBytesF (fileOps root) cfg E (n + 1) st k).1.sub k = .error .keyNotFound ∧
+    (∃ o, getMeta (fileOps root) cfg (getBytesF (fileOps root) cfg E (n + 1) st k).1 k = .ok o ∧ o.rm = failedMeta r bare) ∧
+    fileWritable root (getBytesF (fileOps root) cfg E (n + 1) st k).1.sub k = true ∧
+    triggers (fileOps root) cfg (getBytesF (fileOps root) cfg E (n + 1) st k).1 (.getBytes k) = true := by
+  obtain ⟨hk0, _⟩ := File.absent_of_contains hpk habs
+  rw [getBytesF_absent (fileOps root) cfg E n st k r hl habs, hout]
+  generalize (evalPhase (fileOps root) cfg E (getBytesF (fileOps root) cfg E n) st r k).1 = p1 at hw hnone
+  obtain ⟨_, hp⟩ := File.absent_of_contains hpk hnone
+  obtain ⟨f1, f2⟩ := finish_failed_file (root := root) cfg p1 hpk hk0 hsf r bare hl hrd hw hp
+  have hlog := finish_log (fileOps root) cfg p1 k r (.failed bare)
+  generalize finish (fileOps root) cfg p1 k r (.failed bare) = fin at f1 f2 hlog
+  obtain ⟨s', e⟩ := fin
+  simp only at f1 f2 hlog
+  subst f1
+  simp only [afterMake]
+  have hb : File.getBytes root s'.sub k = .error .keyNotFound := File.getBytes_none _ hpk f2.1
+  have hc : File.contains root s'.sub k = .ok false := by
+    rw [File.contains_plain _ hpk hk0, f2.1]; rfl
+  have hc' : (fileOps root).contains s'.sub k = .ok false := hc
+  exact ⟨hb, hlog, hc, hb, ⟨_, getMeta_file_entry cfg s' hpk hk0 (by simp) f2, by simp [decRM_encRM]⟩, f2.writable,
+    by simp [triggers, hc', hl]⟩
+
+/-- **Failure over a `FileStore`**: a declared key whose query fails when evaluated: the read raises `KeyNotFound`, there
+is no data file (`contains` is false, `get_bytes` of the sub-store raises `KeyNotFound`), the metadata file has status
+`error` (with `has_recipe`, the recipe's name and version, the declared title), the query was evaluated exactly once —
+and, unlike over a `MemoryStore`, a later read DOES try again: it evaluates the query once more and fails the same way. -/
+theorem c08_failure_file (cfg : Cfg) (E : Env) (st : RState PFS) (k : Key) (r : Recipe) (q : Query)
+    (hl : cfg.lookup k = some r) (hpk : PlainKey k) (hsf : keyName k ≠ statusFile) (hrd : recipeDir cfg.recipes k = false)
+    (habs : File.contains root st.sub k = .ok false) (hw : fileWritable root st.sub k = true)
+    (hp : E.prs r.query = some q) (hq : ∀ h names rest, q.segments ≠ .resource h names :: rest)
+    (hev : E.evalQ r.query (storeExt k q) = none) :
+    (getBytes (fileOps root) cfg E st k).2 = .error .keyNotFound ∧
+    (getBytes (fileOps root) cfg E st k).1.log = k :: st.log ∧
+    File.contains root (getBytes (fileOps root) cfg E st k).1.sub k = .ok false ∧
+    File.getBytes root (getBytes (fileOps root) cfg E st k).1.sub k = .error .keyNotFound ∧
+    (∃ o, getMeta (fileOps root) cfg (getBytes (fileOps root) cfg E st k).1 k = .ok o ∧ o.rm.status = .error ∧
+      o.rm.hasRecipe = true ∧ o.rm.depName = some r.name ∧ o.rm.depVersion = some r.version ∧
+      o.rm.title = r.title.or (some [])) ∧
+    fileWritable root (getBytes (fileOps root) cfg E st k).1.sub k = true ∧
+    (getBytes (fileOps root) cfg E (getBytes (fileOps root) cfg E st k).1 k).2 = .error .keyNotFound ∧
+    (getBytes (fileOps root) cfg E (getBytes (fileOps root) cfg E st k).1 k).1.log = k :: k :: st.log := by
+  unfold getBytes fuelOf
+  have he := fun s => evalPhase_plain (fileOps root) cfg E (getBytesF (fileOps root) cfg E (cfg.recipes.length + 1)) s r k q hp hq
+  obtain ⟨a, b, c, g, ⟨o, d1, d2⟩, w, _⟩ := failure_core_file root cfg E (cfg.recipes.length + 1) st k r false hl hpk hsf hrd habs
+    (by rw [he, hev]; rfl) (by rw [he]; exact habs) (by rw [he]; exact hw)
+  obtain ⟨a', b', _⟩ := failure_core_file root cfg E (cfg.recipes.length + 1)
+    (getBytesF (fileOps root) cfg E (cfg.recipes.length + 1 + 1) st k).1 k r false hl hpk hsf hrd c
+    (by rw [he, hev]; rfl) (by rw [he]; exact c) (by rw [he]; exact w)
+  refine ⟨a, by rw [b, he], c, g, ⟨o, d1, ?_⟩, w, a', by rw [b', he, b, he]⟩
+  rw [d2]
+  simp [failedMeta]
+
+/-- **Failure over a `FileStore`** of a recipe that refers to a key without metadata: nothing is evaluated at all, the
+outcome is the same error state (metadata file, no data file). -/
+theorem c08_failure_missing_dependency_file (cfg : Cfg) (E : Env) (st : RState PFS) (k : Key) (r : Recipe) (q : Query)
+    (h : Option Header) (names : List Str) (rest : List Seg)
+    (hl : cfg.lookup k = some r) (hpk : PlainKey k) (hsf : keyName k ≠ statusFile) (hrd : recipeDir cfg.recipes k = false)
+    (habs : File.contains root st.sub k = .ok false) (hw : fileWritable root st.sub k = true)
+    (hp : E.prs r.query = some q) (hq : q.segments = .resource h names :: rest)
+    (e : StoreErr) (hm : metaRoot (fileOps root) cfg st names = .error e) :
+    (getBytes (fileOps root) cfg E st k).2 = .error .keyNotFound ∧
+    (getBytes (fileOps root) cfg E st k).1.log = st.log ∧
+    File.contains root (getBytes (fileOps root) cfg E st k).1.sub k = .ok false ∧
+    File.getBytes root (getBytes (fileOps root) cfg E st k).1.sub k = .error .keyNotFound ∧
+    (∃ o, getMeta (fileOps root) cfg (getBytes (fileOps root) cfg E st k).1 k = .ok o ∧ o.rm.status = .error ∧
+      o.rm.hasRecipe = true ∧ o.rm.depName = some r.name ∧ o.rm.depVersion = some r.version) ∧
+    fileWritable root (getBytes (fileOps root) cfg E st k).1.sub k = true := by
+  unfold getBytes fuelOf
+  have he : evalPhase (fileOps root) cfg E (getBytesF (fileOps root) cfg E (cfg.recipes.length + 1)) st r k = (st, .failed true) := by
+    unfold evalPhase
+    rw [hp]
+    simp only [hq, hm]
+  obtain ⟨a, b, c, g, ⟨o, d1, d2⟩, w, _⟩ := failure_core_file root cfg E (cfg.recipes.length + 1) st k r true hl hpk hsf hrd habs
+    (by rw [he]) (by rw [he]; exact habs) (by rw [he]; exact hw)
+  refine ⟨a, by rw [b, he], c, g, ⟨o, d1, ?_⟩, w⟩
+  rw [d2]
+  simp [failedMeta]
+
+end file
+
 /-! ### non-vacuity and concrete behaviour -/
 
 namespace Ex
@@ -447,6 +667,33 @@ example : (run memOps cfg E s0 [.getBytes kC, .getBytes kC]).log = [kC] := by de
 example : (run (fileOps [['s']]) cfg E f0 [.getBytes kC, .getBytes kC]).log = [kC, kC] := by decide
 example : (getMeta (fileOps [['s']]) cfg (run (fileOps [['s']]) cfg E f0 [.getBytes kC]) kC).toOption.map (·.rm.status) = some .error := by decide
 example : (run (fileOps [['s']]) cfg E f0 [.getBytes kB, .getBytes kA, .getBytes kB]).log = [kB, kA] := by decide
+-- hypotheses of the `FileStore` theorems: `c08_first_read_file` (`a.t`), `c08_first_read_dep_file` (`b.t`: the state
+-- after reading `m/a.t`), `c08_failure_file` (`c.t`), `c08_remove_resets_file` (`a.t`, before and after it was made)
+example : PlainKey kA ∧ PlainKey kB ∧ PlainKey kC := by decide
+example : File.contains [['s']] f0.sub kA = .ok false ∧ fileWritable [['s']] f0.sub kA = true := by decide
+example : File.contains [['s']] f0.sub kB = .ok false ∧ keyName kB ≠ statusFile := by decide
+example : metaRoot (fileOps [['s']]) cfg f0 [['m'], ['a', '.', 't']] = .ok { isDir := false, rm := recipeMeta (rec ['A'] ['a', '.', 't']) } := by decide
+example : fileWritable [['s']] (bytesRoot cfg (getBytesF (fileOps [['s']]) cfg E (cfg.recipes.length + 1)) f0 [['m'], ['a', '.', 't']]).1.sub kB = true ∧
+    File.isDir [['s']] (bytesRoot cfg (getBytesF (fileOps [['s']]) cfg E (cfg.recipes.length + 1)) f0 [['m'], ['a', '.', 't']]).1.sub kB = .ok false := by decide
+example : E.evalQ ['B'] (storeExt kB qB) = some [2] := by decide
+example : File.contains [['s']] f0.sub kC = .ok false ∧ fileWritable [['s']] f0.sub kC = true ∧ recipeDir cfg.recipes kC = false ∧
+    keyName kC ≠ statusFile := by decide
+example : fileWritable [['s']] f0.sub kA = true ∧ File.isDir [['s']] f0.sub kA = .ok false ∧ kA ≠ [] := by decide
+example : fileWritable [['s']] (run (fileOps [['s']]) cfg E f0 [.getBytes kA]).sub kA = true ∧
+    File.isDir [['s']] (run (fileOps [['s']]) cfg E f0 [.getBytes kA]).sub kA = .ok false := by decide
+-- `c08_failure_missing_dependency_file`: a fourth recipe `d.t` that transforms the undeclared, absent key `m/zz`
+def kD : Key := [['d', '.', 't']]
+def qD : Query := .mk [.resource none [['m'], ['z', 'z']], .transform none [.mk ['g'] [] 0] (some ['d', '.', 't'])] false
+def cfgD : Cfg := { root := [['m']], recipes := cfg.recipes ++ [(kD, rec ['D'] ['d', '.', 't'])] }
+def ED : Env := { E with prs := fun t => if t = ['D'] then some qD else E.prs t }
+example : cfgD.lookup kD = some (rec ['D'] ['d', '.', 't']) ∧ PlainKey kD ∧ keyName kD ≠ statusFile ∧ recipeDir cfgD.recipes kD = false ∧
+    File.contains [['s']] f0.sub kD = .ok false ∧ fileWritable [['s']] f0.sub kD = true ∧
+    metaRoot (fileOps [['s']]) cfgD f0 [['m'], ['z', 'z']] = .error .keyNotFound := by decide
+example : ED.prs (rec ['D'] ['d', '.', 't']).query = some qD ∧
+    qD.segments = .resource none [['m'], ['z', 'z']] :: [.transform none [.mk ['g'] [] 0] (some ['d', '.', 't'])] := ⟨rfl, rfl⟩
+example : (getBytes (fileOps [['s']]) cfgD ED f0 kD).2 = .error .keyNotFound ∧ (getBytes (fileOps [['s']]) cfgD ED f0 kD).1.log = [] := by decide
+-- the file store after the three reads: data where the recipe succeeded, metadata only where it failed
+example : (run (fileOps [['s']]) cfg E f0 [.getBytes kB, .getBytes kC, .remove kA, .getBytes kA]).log = [kA, kC, kB, kA] := by decide
 -- `quiet`: a history of metadata reads and reads of present keys
 example : quiet memOps cfg E (run memOps cfg E s0 [.getBytes kA]) [.getBytes kA, .getMeta kB, .keys] := by
   refine ⟨by decide, by decide, by decide, trivial⟩
@@ -459,4 +706,4 @@ end Ex
 
 end Liquer.C08
 
--- OBLIGATIONS: Liquer.C08.c08_declared_visible Liquer.C08.c08_declared_fields Liquer.C08.c08_first_read Liquer.C08.c08_first_read_dep Liquer.C08.first_read_core Liquer.C08.c08_no_reevaluation_step Liquer.C08.c08_no_reevaluation Liquer.C08.c08_no_reevaluation_quiet Liquer.C08.c08_remove_resets Liquer.C08.c08_failure Liquer.C08.c08_failure_missing_dependency Liquer.C08.failure_core Liquer.C08.c08_relative Liquer.C08.c08_relative_posix
+-- OBLIGATIONS: Liquer.C08.c08_declared_visible Liquer.C08.c08_declared_fields Liquer.C08.c08_first_read Liquer.C08.c08_first_read_dep Liquer.C08.first_read_core Liquer.C08.c08_no_reevaluation_step Liquer.C08.c08_no_reevaluation Liquer.C08.c08_no_reevaluation_quiet Liquer.C08.c08_remove_resets Liquer.C08.c08_failure Liquer.C08.c08_failure_missing_dependency Liquer.C08.failure_core Liquer.C08.c08_relative Liquer.C08.c08_relative_posix Liquer.C08.first_read_core_file Liquer.C08.c08_first_read_file Liquer.C08.c08_first_read_dep_file Liquer.C08.c08_remove_resets_file Liquer.C08.failure_core_file Liquer.C08.c08_failure_file Liquer.C08.c08_failure_missing_dependency_file
